@@ -153,11 +153,17 @@ pub fn plan(prop: &str, tier: &str) -> Option<Plan> {
             {
                 // a reader's whole critical section against a mutator, both generated
                 let from = b.units.len();
-                let (k1, k2) = if quick { (2, 1) } else { (2, 2) };
                 for init in 0..2 {
-                    b.add_cases("gen/reader", e(0).set("k1", k1).set("k2", k2).set("init", init).set("pre", 2), crate::scen::gen::reader_cases(k1 as usize, k2 as usize), if quick { 16 } else { 40 });
+                    b.add_cases("gen/reader", e(0).set("k1", 2).set("k2", 1).set("init", init).set("pre", 2), crate::scen::gen::reader_cases(2, 1), 16);
                 }
                 b.units[from..].iter_mut().for_each(|u| u.bound = if quick { 1 } else { 2 });
+                if !quick {
+                    let from = b.units.len();
+                    for init in 0..2 {
+                        b.add_cases("gen/reader", e(0).set("k1", 2).set("k2", 2).set("init", init).set("pre", 2), crate::scen::gen::reader_cases(2, 2), 60);
+                    }
+                    b.units[from..].iter_mut().for_each(|u| u.bound = 1);
+                }
             }
             b.goal("rc/stalled-dropper", "cascade-child-destructed");
             b.goal("rc/reader-second-path", "try-destruct-ran");
@@ -322,21 +328,20 @@ pub fn plan(prop: &str, tier: &str) -> Option<Plan> {
             let bags: &[i64] = &[64, 2];
             for &bag in bags {
                 for &pr in two {
-                    b.add("ebr/sections", &[0], &[&[("prog", pr), ("bag", bag)]], if quick { 2 } else { 4 });
+                    b.add("ebr/sections", &[0], &[&[("prog", pr), ("bag", bag)]], if quick { 2 } else { 3 });
                 }
             }
-            // one two-thread program deeper already in the quick tier
-            if quick {
-                b.add_sliced("ebr/sections", &[0], &[&[("prog", 0), ("bag", 64)]], 3, 8);
-            }
+            // one two-thread program deeper (quick: B=3; thorough: B=4)
+            b.add_sliced("ebr/sections", &[0], &[&[("prog", 0), ("bag", 64)]], if quick { 3 } else { 4 }, 16);
             for &pr in three {
                 for &bag in (if quick { &[64i64][..] } else { bags }) {
-                    b.add_sliced("ebr/sections", &[0], &[&[("prog", pr), ("bag", bag)]], if quick { 2 } else { 3 }, if quick { 8 } else { 16 });
+                    b.add_sliced("ebr/sections", &[0], &[&[("prog", pr), ("bag", bag)]], 2, 8);
                 }
             }
             if !quick {
+                b.add_sliced("ebr/sections", &[0], &[&[("prog", 8), ("bag", 64)]], 3, 32);
                 for &pr in two {
-                    b.add("ebr/sections", &[7, 65535], &[&[("prog", pr), ("bag", 2)]], 3);
+                    b.add("ebr/sections", &[7, 65535], &[&[("prog", pr), ("bag", 2)]], 2);
                 }
             }
             if !quick {
@@ -355,7 +360,7 @@ pub fn plan(prop: &str, tier: &str) -> Option<Plan> {
             b.goal("ebr/sections", "epoch-advanced");
             b.goal("ebr/sections", "repinned");
             rule = "every schedule with at most B preemptions, at every access of an epoch variable or of a queue/registry pointer, of 8 programs of 2-3 participants on a private collector (reader vs deferrer, two deferrers and a long reader, nested guards, racing advancers, registration during a traversal, reactivation, a collection that re-pins, unregistration under a live guard) x bag capacities; non-trivial = deviates from the default schedule, distinct by event-trace hash";
-            bounds = json!({"threads": "2-3", "preemptions": if quick { "3 (2 threads) / 2 (3 threads)" } else { "4 / 3" }, "classes": sched::class_names(sched::EBR), "bag_capacity": bags});
+            bounds = json!({"threads": "2-3", "preemptions": if quick { "2-3 (2 threads) / 2 (3 threads)" } else { "3-4 (2 threads) / 2-3 (3 threads)" }, "classes": sched::class_names(sched::EBR), "bag_capacity": bags});
             let _ = three;
         }
         "C15" => {
